@@ -1978,6 +1978,12 @@ def surface():
                     elif depth == 0:
                         fns.append(mm.group(1))
                 out.append((rel, name, fns))
+                if name.startswith("From for "):
+                    # the body of the conversion, whitespace removed
+                    fm = re.search(r"\bfn\s+from\s*\([^)]*\)\s*->\s*Self\s*\{", body)
+                    if fm:
+                        fb = body[fm.end():match_brace(body, fm.end() - 1)]
+                        out.append((rel, "frombody " + name[len("From for "):], [re.sub(r"\s+", "", fb)]))
             # free functions of the file (brace depth 0)
             free, depth = [], 0
             for mm in re.finditer(r"[{}]|\bfn\s+(\w+)", txt):
@@ -2037,7 +2043,7 @@ def surface():
 
 
 def split_hdr(n):
-    for k in ("trait", "struct", "enum", "fn", "fields"):
+    for k in ("trait", "struct", "enum", "fn", "fields", "frombody"):
         if n.startswith(k + " "):
             return (k, n[len(k) + 1:])
     if " for " in n:
